@@ -1,8 +1,8 @@
 (* C20 - consistency of inv_map with the mapping / callback / value vectors,
    well-formedness of every snapshot (in flight and held by the realtime
-   side), preserved by every event of a quiescent history; crash-freedom *)
+   side), preserved by every event of a nocross history; crash-freedom *)
 From Coq Require Import List ZArith Bool Lia.
-From RtoscV Require Import Midi.MidiModel Midi.MidiSpec Midi.MidiProofs Midi.MidiProto.
+From RtoscV Require Import Midi.MidiModel Midi.MidiSpec Midi.MidiProofs Midi.MidiProto Midi.MidiHandshake.
 Import ListNotations.
 Local Open Scope Z_scope.
 
@@ -206,7 +206,7 @@ Lemma NI_unmap : forall ports n a c, NI ports n ->
   exists n' out, nrt_unmap n a c = Some (n', out) /\ NI ports n' /\ learnQ n' = learnQ n /\
     (forall a2 c2, akind n' a2 c2 = if (a2 =? a) && Bool.eqb c2 c then -1 else akind n a2 c2) /\
     (if akind n a c =? -1 then out = [] /\ nstorage n' = nstorage n
-     else exists s', out = [RBind s'] /\ nstorage n' = Some s').
+     else exists s', out = [RBind s' (-1)] /\ nstorage n' = Some s').
 Proof.
   intros ports n a c I. unfold nrt_unmap.
   destruct (inv_find a (inv_map n)) as [im |] eqn:F.
@@ -252,7 +252,7 @@ Proof.
     { intro a2. unfold inv'. destruct (kind_id (negb c) im =? -1).
       - rewrite inv_find_erase. reflexivity.
       - rewrite inv_find_set'. reflexivity. }
-    exists {| nstorage := Some s'; inv_map := inv'; learnQ := learnQ n |}, [RBind s'].
+    exists {| nstorage := Some s'; inv_map := inv'; learnQ := learnQ n |}, [RBind s' (-1)].
     split; [reflexivity |].
     assert (Kin : forall t, In t (mapping s) -> me_id t = kind_id c im -> t = (kind_id c im, c, im_loc im)).
     { intros t Ht E. apply (ids_inj (mapping s)); auto. }
@@ -399,7 +399,7 @@ Proof. intros [s |] p a; reflexivity. Qed.
 
 Lemma NI_use : forall ports n id a c q, NI ports n -> learnQ n = (a, c) :: q -> 0 <= id ->
   ~ In id (mids (omap (nstorage n))) ->
-  exists n' s', nrt_useFreeID ports n id = Some (n', [RBind s']) /\ NI ports n' /\
+  exists n' s', nrt_useFreeID ports n id = Some (n', [RBind s' id]) /\ NI ports n' /\
     nstorage n' = Some s' /\ learnQ n' = q /\
     (forall a2 c2, akind n' a2 c2 = if (a2 =? a) && Bool.eqb c2 c then id else akind n a2 c2).
 Proof.
@@ -491,7 +491,7 @@ Proof.
 Qed.
 
 Definition binds_are (o : option store) (out : list rmsg) : Prop :=
-  Forall (fun m => match m with RBind s' => o = Some s' | _ => True end) out.
+  Forall (fun m => match m with RBind s' _ => o = Some s' | _ => True end) out.
 
 Lemma NI_map : forall ports n a c, NI ports n -> (exists p, nthZ ports a = Some p) ->
   exists n' out, nrt_map n a c = Some (n', out) /\ NI ports n' /\ binds_are (nstorage n') out /\
@@ -500,7 +500,7 @@ Lemma NI_map : forall ports n a c, NI ports n -> (exists p, nthZ ports a = Some 
           (forall a2 c2, akind n' a2 c2 = if (a2 =? a) && Bool.eqb c2 c then -1 else akind n a2 c2) /\
           exists out0, out = out0 ++ [RWatch] /\
             (if akind n a c =? -1 then out0 = [] /\ nstorage n' = nstorage n
-             else exists s', out0 = [RBind s'] /\ nstorage n' = Some s')).
+             else exists s', out0 = [RBind s' (-1)] /\ nstorage n' = Some s')).
 Proof.
   intros ports n a c I Hp. unfold nrt_map.
   destruct (qmem a c (learnQ n)) eqn:Qm.
@@ -529,6 +529,27 @@ Proof.
   - intros x y H. discriminate.
   - intros x [].
   - intros x y [].
+Qed.
+
+(* a midi-use-CC that finds no queued address: the unchanged mapping is sent as its answer *)
+Definition same_store (o : option store) : store :=
+  match o with Some s => clone_store s | None => empty_store end.
+
+Lemma useFreeID_null : forall ports n id, learnQ n = [] ->
+  nrt_useFreeID ports n id =
+  Some ({| nstorage := Some (same_store (nstorage n)); inv_map := inv_map n; learnQ := [] |},
+        [RBind (same_store (nstorage n)) id]).
+Proof. intros ports n id Q. unfold nrt_useFreeID. rewrite Q. reflexivity. Qed.
+
+Lemma NI_null : forall ports n, NI ports n ->
+  NI ports {| nstorage := Some (same_store (nstorage n)); inv_map := inv_map n; learnQ := [] |}.
+Proof.
+  intros ports n I. destruct I as [L Z N Ps C1 C2 Q Qn].
+  destruct (nstorage n) as [s |] eqn:Es; cbn [same_store oval ocb omap] in *;
+    constructor; cbn [nstorage inv_map learnQ oval ocb omap clone_store empty_store mapping callbacks values];
+    try assumption; try (intros a c []; fail); try (constructor; fail).
+  - unfold zeros. rewrite repeat_length. exact L.
+  - apply Forall_zeros.
 Qed.
 
 (* ---- well-formed snapshots ------------------------------------------------------ *)
@@ -734,7 +755,7 @@ Proof.
 Qed.
 
 Definition msg_ok (ports : list port) (m : rmsg) : Prop :=
-  match m with RBind s => SW ports s /\ Forall (fun v => v = 0) (values s) | _ => True end.
+  match m with RBind s _ => SW ports s /\ Forall (fun v => v = 0) (values s) | _ => True end.
 
 Lemma rt_deliver_ok : forall ports r m, RI ports r -> msg_ok ports m ->
   exists r', rt_deliver r m = Some r' /\ RI ports r'.
@@ -742,7 +763,9 @@ Proof.
   intros ports r m [Wq Ws] Hm. destruct m; cbn [rt_deliver].
   - eexists. split; [reflexivity |]. split; assumption.
   - eexists. split; [reflexivity |]. split; assumption.
-  - destruct (pq_pop_ok _ Wq) as [q' [Ep Wq']]. rewrite Ep.
+  - assert (Hq : exists q', (if ans =? -1 then Some (pending r) else pq_pop (pending r)) = Some q' /\ pq_wf q').
+    { destruct (ans =? -1); [exists (pending r); split; [reflexivity | assumption] | apply pq_pop_ok; assumption]. }
+    destruct Hq as [q' [Ep Wq']]. rewrite Ep.
     destruct (rstorage r) as [old |].
     + destruct Hm as [Hm Hz]. destruct (cloneValues_ok ports s old Hm Ws) as [c [Ec [Wc _]]]. rewrite Ec.
       eexists. split; [reflexivity |]. split; assumption.
@@ -780,7 +803,7 @@ Proof.
   pose proof (ni_zero _ _ I) as Z. rewrite H in Z. exact Z.
 Qed.
 
-Lemma J_step : forall ports w e, J ports w -> pre_ok w e -> evok ports e ->
+Lemma J_step : forall ports w e, J ports w -> pre_ok0 w e -> evok ports e ->
   exists w' o, step ports w e = Some (w', o) /\ J ports w'.
 Proof.
   intros ports w e [Jn Jcn Jcr Jr] [Nn [Nr Pre]] Ev. destruct e; cbn [step].
@@ -805,8 +828,13 @@ Proof.
     destruct used; [| assumption]. apply Forall_app. split; [assumption | repeat constructor; exact Hid].
   - destruct (chN w) as [| id rest] eqn:EN.
     + eexists. eexists. split; [reflexivity |]. constructor; try assumption. rewrite EN. constructor.
-    + destruct Pre as [HQ Fresh]. inversion Jcn as [| ? ? Hid Hrest]; subst.
-      destruct (learnQ (wn w)) as [| [a c] q] eqn:LQ; [congruence |].
+    + rename Pre into Fresh. inversion Jcn as [| ? ? Hid Hrest]; subst.
+      destruct (learnQ (wn w)) as [| [a c] q] eqn:LQ.
+      { rewrite (useFreeID_null ports (wn w) id LQ). cbn [nrt_result].
+        pose proof (NI_null ports (wn w) Jn) as I'.
+        eexists. eexists. split; [reflexivity |]. constructor; cbn [wn wr chN chR]; try assumption.
+        apply Forall_app. split; [assumption |].
+        constructor; [cbn; split; [eapply NI_SW; [exact I' | reflexivity] | exact (ni_zero _ _ I')] | constructor]. }
       destruct (NI_use ports (wn w) id a c q Jn LQ Hid Fresh) as [n' [s' [E [I' [Es _]]]]].
       rewrite E. cbn [nrt_result].
       eexists. eexists. split; [reflexivity |]. constructor; cbn [wn wr chN chR]; try assumption.
@@ -818,40 +846,51 @@ Proof.
       eexists. eexists. split; [reflexivity |]. constructor; cbn [wn wr chN chR]; assumption.
 Qed.
 
-(* the combined invariant in the shape  Inv init / Inv s -> quiescent step -> Inv s' *)
-Definition Inv (U : list Z) (ports : list port) (w : world) (pend : Z) (tg : list tag) : Prop :=
-  G U w pend tg /\ J ports w.
+(* the combined invariant: the handshake (MidiHandshake, all histories) and J *)
+Definition Inv (U : list Z) (ports : list port) (w : world) : Prop :=
+  (exists tg P, HP U w tg P) /\ J ports w.
 
-Theorem Inv_init : forall U ports, Inv U ports world0 0 [].
-Proof. intros. split; [apply G0 | apply J0]. Qed.
+Theorem Inv_init : forall U ports, Inv U ports world0.
+Proof. intros. split; [exists [], []; apply HP0 | apply J0]. Qed.
 
-Theorem Inv_step : forall U ports w pend tg e,
-  (length U <= 32)%nat -> Inv U ports w pend tg -> ev_ok U e -> evok ports e ->
-  exists w' o, step ports w e = Some (w', o) /\
-    forall p' tg', qstep pend tg e o = Some (p', tg') -> Inv U ports w' p' tg'.
+Lemma HP_pre : forall U w tg P e, HP U w tg P -> pre_ok0 w e.
 Proof.
-  intros U ports w pend tg e US [HG HJ] E1 E2.
-  destruct (J_step ports w e HJ (G_pre U w pend tg e HG) E2) as [w' [o [S J']]].
-  exists w', o. split; [exact S |]. intros p' tg' Q.
-  split; [| exact J']. eapply (G_step U US ports); eassumption.
+  intros U w tg P e [A I].
+  pose proof (HSI_nst_nodup _ _ _ _ _ _ _ _ I) as Nn.
+  pose proof (h_rnodup _ _ _ _ _ _ _ _ I) as Nr.
+  unfold pre_ok0. split; [assumption |]. split; [assumption |].
+  destruct e; try exact Logic.I.
+  destruct (chN w) as [| id rest] eqn:EN; [exact Logic.I |].
+  eapply HSI_fresh. exact I.
 Qed.
 
-(* lifted over histories: a quiescent history never crashes and ends in Inv *)
+(* every admissible event of every history: the step is defined (no vector
+   access out of range, no new T[-1], no null dereference) and Inv holds again *)
+Theorem Inv_step : forall U ports w e,
+  (length U <= 32)%nat -> Inv U ports w -> ev_ok U e -> evok ports e ->
+  exists w' o, step ports w e = Some (w', o) /\ Inv U ports w'.
+Proof.
+  intros U ports w e US [[tg [P HH]] HJ] E1 E2.
+  destruct (J_step ports w e HJ (HP_pre U w tg P e HH) E2) as [w' [o [S J']]].
+  exists w', o. split; [exact S |].
+  split; [| exact J']. destruct (H_step U US ports _ _ _ _ _ _ HH E1 S) as [_ HH'].
+  eexists. eexists. exact HH'.
+Qed.
+
+(* lifted over histories: no history crashes, every one ends in Inv *)
 Lemma Inv_run : forall U ports, (length U <= 32)%nat ->
-  forall evs w pend tg tr fin,
-  Inv U ports w pend tg -> Forall (ev_ok U) evs -> Forall (evok ports) evs ->
-  run ports w evs = (tr, fin) -> quiescent_from pend tg evs tr = true ->
+  forall evs w tr fin,
+  Inv U ports w -> Forall (ev_ok U) evs -> Forall (evok ports) evs ->
+  run ports w evs = (tr, fin) ->
   length tr = length evs /\ exists w', fin = Some w' /\ J ports w'.
 Proof.
-  intros U ports US. induction evs as [| e es IH]; intros w pend tg tr fin HI E1 E2 Hr Hq.
+  intros U ports US. induction evs as [| e es IH]; intros w tr fin HI E1 E2 Hr.
   - cbn in Hr. inversion Hr; subst. split; [reflexivity |]. exists w. split; [reflexivity | apply HI].
   - inversion E1; subst. inversion E2; subst.
-    destruct (Inv_step U ports w pend tg e US HI H1 H3) as [w' [o [S Nx]]].
+    destruct (Inv_step U ports w e US HI H1 H3) as [w' [o [S Nx]]].
     cbn [run] in Hr. rewrite S in Hr. destruct (run ports w' es) as [tr' fin'] eqn:R.
     inversion Hr; subst tr fin; clear Hr.
-    rewrite quiescent_from_step in Hq.
-    destruct (qstep pend tg e o) as [[p' tg'] |] eqn:Q; [| discriminate].
-    destruct (IH w' p' tg' tr' fin' (Nx _ _ eq_refl) H2 H4 R Hq) as [L Fin].
+    destruct (IH w' tr' fin' Nx H2 H4 R) as [L Fin].
     split; [cbn; lia | exact Fin].
 Qed.
 
@@ -862,12 +901,12 @@ Proof.
   constructor; [apply H2 | apply IH; assumption].
 Qed.
 
-Theorem quiescent_crash_free : forall ports evs tr fin U,
+Theorem crash_free : forall ports evs tr fin U,
   (length U <= 32)%nat -> incl (ccids evs) U -> Forall (evok ports) evs ->
-  run ports world0 evs = (tr, fin) -> quiescent evs tr = true ->
+  run ports world0 evs = (tr, fin) ->
   length tr = length evs /\ exists w, fin = Some w /\ J ports w.
 Proof.
-  intros ports evs tr fin U US Hi He Hr Hq.
+  intros ports evs tr fin U US Hi He Hr.
   eapply (Inv_run U ports US); try eassumption.
   - apply Inv_init.
   - apply ev_ok_all; [assumption | eapply evok_ccids; eassumption].
@@ -886,7 +925,7 @@ Qed.
 Theorem learn_shares_slot : forall ports n id a c q, NI ports n -> learnQ n = (a, c) :: q ->
   0 <= id -> ~ In id (mids (omap (nstorage n))) ->
   exists n' s' p loc,
-    nrt_useFreeID ports n id = Some (n', [RBind s']) /\ NI ports n' /\ nstorage n' = Some s' /\
+    nrt_useFreeID ports n id = Some (n', [RBind s' id]) /\ NI ports n' /\ nstorage n' = Some s' /\
     learnQ n' = q /\ SW ports s' /\ nthZ ports a = Some p /\
     find_map id (mapping s') = Some (id, c, loc) /\
     nthZ (callbacks s') loc = Some (mk_cb p a) /\
